@@ -1234,6 +1234,7 @@ package ecs
 //@   requires hasRelation && target.id != 0 ==> int(target.id) < len(w.entityPool.entities)
 //@   requires bitSetCovers(&w.targetEntities, len(w.entities))
 //@   requires entAlive(w, entity) ==> int(w.entities[int(entity.id)].arch.archetypeAccess.RelationTarget.id) < len(w.entities)
+//@   requires entAlive(w, entity) && w.entities[int(entity.id)].arch.node.HasRelation ==> nodeFreeInv(w.entities[int(entity.id)].arch.node) && tableSlotOK(w.entities[int(entity.id)].arch)
 //@   flag may_panic noframe
 //@   lockfast isLocked(w)
 //@   ensures w.listener == nil ==> notifyCount[w.listener.val] == old(notifyCount[w.listener.val])
@@ -1520,7 +1521,7 @@ package ecs
 //@        arch.len == old(arch.len) && arch.archetypeData == old(arch.archetypeData) && (arch.archetypeData != nil ==> arch.archetypeData.index == old(arch.archetypeData.index))
 //@        && (arch.node.HasRelation ==> mapHas(arch.node.nodeData.archetypeMap, arch.archetypeAccess.RelationTarget) == old(mapHas(arch.node.nodeData.archetypeMap, arch.archetypeAccess.RelationTarget)) && len(arch.node.nodeData.freeIndices) == old(len(arch.node.nodeData.freeIndices)))
 //@   ensures[retires] old(arch.len == 0 && arch.node.HasRelation && arch.archetypeData.index >= 0 && arch.archetypeAccess.RelationTarget.id != 0 && !entAlive(w, arch.archetypeAccess.RelationTarget)) ==>
-//@        arch.archetypeData.index == -1 && !mapHas(arch.node.nodeData.archetypeMap, old(arch.archetypeAccess.RelationTarget)) && nodeFreeInv(arch.node)
+//@        arch.len == 0 && arch.archetypeData.index == -1 && !mapHas(arch.node.nodeData.archetypeMap, old(arch.archetypeAccess.RelationTarget)) && nodeFreeInv(arch.node)
 //@        && len(arch.node.nodeData.freeIndices) == old(len(arch.node.nodeData.freeIndices)) + 1
 //@   ensures arch.node == old(arch.node) && arch.archetypeAccess.RelationTarget == old(arch.archetypeAccess.RelationTarget)
 //@   modifies arch.node.nodeData.archetypeMap[ALL], arch.node.nodeData.freeIndices, arch.node.nodeData.freeIndices[ALL], arch.len, arch.archetypeData.index
@@ -1764,3 +1765,49 @@ package ecs
 //@   ensures !mapHas(a.nodeData.archetypeMap, old(arch.archetypeAccess.RelationTarget))
 //@   ensures forall t Entity :: {mapHas(a.nodeData.archetypeMap, t)} t != old(arch.archetypeAccess.RelationTarget) ==> mapHas(a.nodeData.archetypeMap, t) == old(mapHas(a.nodeData.archetypeMap, t)) && a.nodeData.archetypeMap[t] == old(a.nodeData.archetypeMap[t])
 //@   modifies a.nodeData.archetypeMap[ALL], a.nodeData.freeIndices, a.nodeData.freeIndices[ALL], arch.len, arch.archetypeData.index
+
+// ---------------------------------------------------------------------------------------------
+// C08 — batch moves against the single-entity specification
+// ---------------------------------------------------------------------------------------------
+// exchangeArch: the batch move of a whole table uses the SAME new component set (getExchangeMask) and reaches a table
+// with the SAME new target as the single-entity path (newTarget, the specification function of exchangeNoNotify),
+// and moves row i of the old table to row start+i of the new one, updating the entity index accordingly.
+//@ func World.exchangeArch(w, oldArch, oldArchLen, add, rem, relation, hasRelation, target) (arch, start)
+//@   props C08 C05
+//@   requires regInv(&w.registry) && idsValid(add) && idsValid(rem) && validID(relation.id) && oldArch != nil && oldArch.node != nil && oldArch.node.nodeData != nil
+//@   requires (len(add) > 0 || len(rem) > 0) && oldArchLen < 1073741823 && int(oldArch.archetypeAccess.RelationTarget.id) < len(w.entityPool.entities) && bitSetCovers(&w.targetEntities, len(w.entityPool.entities)) && (hasRelation && target.id != 0 ==> int(target.id) < len(w.entityPool.entities))
+//@   requires forall i uint32 :: {entAt(&oldArch.archetypeAccess, i)} i < oldArchLen ==> int(entAt(&oldArch.archetypeAccess, i).id) < len(w.entities)
+//@   requires forall i uint32, j uint32 :: {entAt(&oldArch.archetypeAccess, i), entAt(&oldArch.archetypeAccess, j)} i < j && j < oldArchLen ==> entAt(&oldArch.archetypeAccess, i).id != entAt(&oldArch.archetypeAccess, j).id
+//@   requires oldArch.node.HasRelation ==> oldArch.archetypeData != nil
+//@   requires oldArch.node.HasRelation && oldArch.archetypeData.index >= 0 ==> nodeFreeInv(oldArch.node) && tableSlotOK(oldArch)
+//@   flag nosafe may_panic noframe
+//@   ensures arch != nil && arch != oldArch && start == old(arch.len) && arch.len == start + oldArchLen && oldArch.len == 0
+//@   ensures[target] arch.archetypeAccess.HasRelationComponent ==> arch.archetypeAccess.RelationTarget == old(newTarget(w, oldArch, rem, hasRelation, target))
+//@   ensures[index] forall i uint32 :: {entAt(&oldArch.archetypeAccess, i)} i < oldArchLen ==> w.entities[int(entAt(&oldArch.archetypeAccess, i).id)].arch == arch && w.entities[int(entAt(&oldArch.archetypeAccess, i).id)].index == start + i
+//@   loop #1
+//@   inv (exists k int :: {rem[k]} 0 <= k && k < $i && specBit(w.registry.IsRelation, rem[k].id)) == false
+//@   loop #2
+//@   inv arch.len == startIdx + count && count == oldArchLen && i <= count
+//@   inv forall k uint32 :: {entAt(&oldArch.archetypeAccess, k)} k < i ==> w.entities[int(entAt(&oldArch.archetypeAccess, k).id)].arch == arch && w.entities[int(entAt(&oldArch.archetypeAccess, k).id)].index == startIdx + k
+//@   loop #3
+//@   inv true
+
+// setRelationArch: the batch re-targeting of a whole table reaches the table of the SAME node with exactly the requested
+// target (as setRelation does for one entity) and moves row i to row start+i; the returned range is [start, start+n).
+//@ func World.setRelationArch(w, oldArch, oldArchLen, comp, target) (arch, start, end)
+//@   props C08 C05
+//@   requires regInv(&w.registry) && validID(comp.id) && oldArch != nil && oldArch.node != nil && oldArch.node.nodeData != nil && oldArch.archetypeAccess.RelationTarget != target
+//@   requires oldArchLen < 1073741823 && int(oldArch.archetypeAccess.RelationTarget.id) < len(w.entityPool.entities) && bitSetCovers(&w.targetEntities, len(w.entityPool.entities)) && (target.id != 0 ==> int(target.id) < len(w.entityPool.entities))
+//@   requires forall i uint32 :: {entAt(&oldArch.archetypeAccess, i)} i < oldArchLen ==> int(entAt(&oldArch.archetypeAccess, i).id) < len(w.entities)
+//@   requires forall i uint32, j uint32 :: {entAt(&oldArch.archetypeAccess, i), entAt(&oldArch.archetypeAccess, j)} i < j && j < oldArchLen ==> entAt(&oldArch.archetypeAccess, i).id != entAt(&oldArch.archetypeAccess, j).id
+//@   requires oldArch.node.HasRelation ==> oldArch.archetypeData != nil && nodeOK(oldArch.node) && tableSlotOK(oldArch)
+//@   flag nosafe may_panic noframe
+//@   panics_if !(oldArch.node.HasRelation && oldArch.node.Relation.id == comp.id)
+//@   ensures arch != nil && arch != oldArch && arch.node == oldArch.node && arch.archetypeAccess.RelationTarget == target
+//@   ensures start == old(arch.len) && end == start + oldArchLen && arch.len == end && oldArch.len == 0
+//@   ensures[index] forall i uint32 :: {entAt(&oldArch.archetypeAccess, i)} i < oldArchLen ==> w.entities[int(entAt(&oldArch.archetypeAccess, i).id)].arch == arch && w.entities[int(entAt(&oldArch.archetypeAccess, i).id)].index == start + i
+//@   loop #1
+//@   inv arch.len == startIdx + count && count == oldArchLen && i <= count && arch.archetypeAccess.RelationTarget == target && arch != oldArch
+//@   inv forall k uint32 :: {entAt(&oldArch.archetypeAccess, k)} k < i ==> w.entities[int(entAt(&oldArch.archetypeAccess, k).id)].arch == arch && w.entities[int(entAt(&oldArch.archetypeAccess, k).id)].index == startIdx + k
+//@   loop #2
+//@   inv true
